@@ -47,6 +47,26 @@ Theorem C03_lexer_positions_partial : forall (src : bytes) (ds : list bool) os,
 Proof. exact lexer_positions_guarded. Qed.
 Print Assumptions C03_lexer_positions_partial.
 
+(* What the flag means in the source text: a token is flagged only if an EARLIER token of the
+   stream is a NUMBER whose text is directly followed by e/E, an optional + or -, and CR or LF
+   (a dangling exponent at a line end) -- the input class of findings F-C03-1 and F-C03-3. *)
+Theorem C03_bad_has_cause : forall src ds os pre o post,
+  scan_all src ds = LOk os -> os = pre ++ o :: post -> tbad (otok o) = true ->
+  exists n, In n pre /\ tkind (otok n) = T_NUMBER /\
+            dangling_eol src (tstart (otok n) + zlen (tval (otok n))).
+Proof. exact bad_has_cause. Qed.
+Print Assumptions C03_bad_has_cause.
+
+(* The same theorem with a purely textual guard: if nowhere in the source an e/E is followed,
+   directly or after one sign, by CR or LF, every token other than ILLEGAL is reported at the
+   true line and column of its first byte. *)
+Theorem C03_lexer_positions_textual_guard : forall src ds os,
+  no_dangling_eol src -> scan_all src ds = LOk os ->
+  forall o, In o os -> tkind (otok o) <> T_ILLEGAL ->
+  tpos (otok o) = pos_of_offset src (tstart (otok o)) /\ 0 <= tstart (otok o) <= zlen src.
+Proof. exact lexer_positions_textual_guard. Qed.
+Print Assumptions C03_lexer_positions_textual_guard.
+
 (* the guard can only fail after the first token *)
 Theorem C03_first_token_unaffected : forall src ds os,
   scan_all src ds = LOk os -> exists o rest, os = o :: rest /\ tbad (otok o) = false.
@@ -111,3 +131,15 @@ Example C03_ex_repaired_by_space :
   | _ => False
   end.
 Proof. vm_compute. reflexivity. Qed.
+
+(* the textual guard holds for a concrete source with an exponent: x=1e5 LF *)
+Example C03_ex_textual_guard : no_dangling_eol [120; 61; 49; 101; 53; 10].
+Proof.
+  intros j (He & Hr).
+  assert (Hj : 0 <= j < 6).
+  { destruct (Z_lt_dec j 0); [rewrite getch_out in He by (left; lia); lia|].
+    destruct (Z_lt_dec j 6); [lia|]. rewrite getch_out in He by (right; change (zlen [120; 61; 49; 101; 53; 10]) with 6; lia). lia. }
+  assert (Hc : j = 0 \/ j = 1 \/ j = 2 \/ j = 3 \/ j = 4 \/ j = 5) by lia.
+  unfold eol in Hr.
+  destruct Hc as [->|[->|[->|[->|[->| ->]]]]]; vm_compute in He, Hr; lia.
+Qed.
